@@ -18,7 +18,7 @@ AUTO = ['sturges', 'scott', 'sqrt']
 REL = [0.3, 0.5, 0.7]
 AZ = [0, 45, 90, -60]
 TOL = [45, 90, 180, 22.5]
-BW = ['q33', 'q50', 'q80']
+BW = ['q33', 'q50', 'q80', 6.0]      # a quantile of the distances or an absolute width
 DMODEL = ['compass', 'triangle']
 
 READS = {20: 'bins', 21: 'n_lags', 22: 'bin_count', 23: 'experimental', 24: 'parameters'}
@@ -60,7 +60,7 @@ class World:
             kw['maxlag'] = self.maxlag(ml)
             kw['n_lags'] = nl[1] if nl[0] == 0 else (len(self.edges[nl[1] % 3]) if nl[0] == 2 else 10)
         if self.directional:
-            kw.update(azimuth=AZ[az % 4], tolerance=TOL[tl % 4], bandwidth=BW[bw % 3], directional_model=DMODEL[dm % 2])
+            kw.update(azimuth=AZ[az % 4], tolerance=TOL[tl % 4], bandwidth=BW[bw % 4], directional_model=DMODEL[dm % 2])
         return kw
 
     def fresh(self, S):
@@ -98,7 +98,7 @@ class World:
         elif t == 12:
             V.tolerance = TOL[a % 4]
         elif t == 13:
-            V.bandwidth = BW[a % 3]
+            V.bandwidth = BW[a % 4]
         elif t == 14:
             V.set_directional_model(DMODEL[a % 2])
 
@@ -137,7 +137,7 @@ def setter_alphabet(rng, directional):
     ops = [[0, 5], [0, 8], [1, [0]], [1, [1]], [1, [3, 1]], [1, [4, 1]], [2, [0]], [2, [1]], [2, [4, 0]], [2, [5, 0]], [3, 1],
            [4, 1], [4, 2], [5, 1], [5, 3], [6, True], [6, False], [7, 1], [8, 1], [9, 1], [9, 2], [10, 1], [10, 2], [10, 3], [10, 0]]
     if directional:
-        ops += [[11, 1], [11, 2], [12, 1], [12, 3], [13, 1], [14, 1]]
+        ops += [[11, 1], [11, 2], [12, 1], [12, 3], [13, 1], [13, 3], [14, 1]]
     return ops
 
 
@@ -213,6 +213,10 @@ def run(ctx, replay=None):
                 S0s.append([rng.randrange(3) if not directional else 0, rng.randrange(4), [0, rng.choice([4, 6, 10])], rng.choice([[0], [1], [3, 1], [4, 2]]),
                             rng.choice([[0], [0], [1], [4, 1]]), rng.randrange(3), rng.randrange(4), rng.choice([False, True]), 0, rng.randrange(3),
                             rng.randrange(4) if directional else 0, rng.randrange(4) if directional else 0, rng.randrange(3) if directional else 0, rng.randrange(2) if directional else 0])
+            if directional:
+                # the start configuration of the exhaustive part: a search area whose bandwidth matters (triangle, narrow tolerance)
+                S0s[0][13] = 1
+                S0s[0][11] = rng.choice([0, 1, 3])
             for S0 in S0s:
                 if S0[4][0] == 4:
                     S0[2] = [1]
@@ -231,7 +235,11 @@ def run(ctx, replay=None):
             pairs = list(itertools.product(alpha, alpha))
             if not ctx.thorough():
                 rng.shuffle(pairs)
-                pairs = pairs[: (120 if not directional else 60) if not raw else 40]
+                # always present: every assignment before / after a change of the distances (metric), which makes the instance
+                # re-resolve the settings it remembers "as passed" (relative maxlag, quantile bandwidth, derived n_lags)
+                must = [(a, b) for a, b in pairs if (a[0] == 9) != (b[0] == 9) and (a[0] == 9 and a[1] == 1 or b[0] == 9 and b[1] == 1)] if not raw else []
+                rest = [pq for pq in pairs if pq not in must]
+                pairs = must + rest[: (120 if not directional else 60) if not raw else 40]
             for a, b in pairs:
                 histories.append((world, S0, [a, rng.choice(reads), b, [24], [22], [23], [20], [21]], 'exh2'))
             # random histories up to length 8 (12), reads interleaved
